@@ -1,3 +1,4 @@
+import TplModel.Generated.Facts
 import TplModel.Sys.FsParse
 import TplModel.Proofs.FsParse
 /-! # C19 — the manager registers exactly the matching files under unique names
@@ -341,5 +342,9 @@ theorem walk_fault_at_every_entry (m : String → Bool) (es : List Entry) (i : N
   simp [Entry.opened]
 
 example : Clean html tree ∧ 4 < tree.length := ⟨(ok_iff_clean html tree).mp (by decide), by decide⟩
+
+
+/-- tie to the code: html/manager.go closes what it opens (at least one Close call; re-extracted every run) -/
+theorem manager_closes_files : 0 < Facts.managerCloseCalls := by decide
 
 end C19
